@@ -85,6 +85,15 @@ def run(chk, searching=False):
               ("STORE", "1 +FLAGS (\\Seen)"), ("UID", "STORE 1 +FLAGS (Junk)"), ("EXPUNGE", ""), ("CLOSE", "")]
     programs.append(("tls", [("LOGIN", None), ("SELECT", "INBOX"), ("XDAMAGE", "user_db_1")] + faulty))
     programs.append(("tls", [("LOGIN", None), ("SELECT", "Roles/%s/INBOX" % P.R1), ("XDAMAGE", "role_db_1")] + faulty))
+    # very long command lines (beyond any line buffer an implementation might use): still ONE tagged completion, with the line's own tag
+    ids = ",".join(str(i) for i in range(1, 2600))                      # about 12 kB
+    pad = "x" * 8160
+    longl = [("UID", "FETCH " + ids + " (FLAGS)"), ("NOOP", ""), ("FETCH", ids + " (UID)"), ("NOOP", ""),
+             ("SEARCH", "OR " * 3000 + "ALL " + "ALL " * 3000), ("NOOP", ""), ("STORE", ids + " +FLAGS (\\Seen)"), ("NOOP", ""),
+             ("BOGUS", pad + " zz1 CAPABILITY"), ("NOOP", ""), ("LIST", '"" "' + "a" * 9000 + '"'), ("NOOP", "")]
+    programs.append(("tls", [("LOGIN", None), ("SELECT", "INBOX")] + longl))
+    for kind in ("plain", "starttls"):
+        programs.append((kind, [("BOGUS", pad + " zz1 CAPABILITY"), ("NOOP", ""), ("CAPABILITY", pad), ("NOOP", ""), ("LOGIN", None), ("NOOP", "")]))
     sess = P.run_sessions(chk, programs)
     # an account whose LOGIN the server refuses although the backend says 200
     # (admin-provisioned, password not initialised): the session must stay unauthenticated
@@ -131,7 +140,7 @@ def run(chk, searching=False):
                 continue
             nd += 1
             o = s["lines"][i]
-            chk.violation("%s: connection kind %s, line %d '%s %s' -> %s" % ("; ".join(MINE[v] for v in mine), s["kind"], i, o["word"], o["arg"], o["recv"][:200].replace("\r\n", " | ")),
+            chk.violation("%s: connection kind %s, line %d '%s %s' -> %s" % ("; ".join(MINE[v] for v in mine), s["kind"], i, o["word"], (o["arg"] or "")[:80], o["recv"][:200].replace("\r\n", " | ")),
                           {"suite": "programs", "kind": s["kind"], "program": s["prog"], "line": i, "verdicts": mine, "observation": o})
     chk.cov["disagreements_checked"] = nd
     chk.sample({"kind": good[0]["kind"], "program": good[0]["prog"][:6], "first_lines": [{k: o[k] for k in ("word", "ok", "own", "data", "changed", "backend")} for o in good[0]["lines"][:4]]})
